@@ -70,8 +70,9 @@ def _module_defs(tree: ast.Module) -> set[str]:
     return names
 
 
-def check_module(check: Check, label: str, sk: tmpl.Skeleton, ents: list) -> None:
+def check_module(check: Check, label: str, sk: tmpl.Skeleton, ents: list, repo: Repo | None = None) -> None:
     construct = f"{GEN_REL}::generate_module[{label}]"
+    state_init = repo.func("src/pest/state.py", "ParserState.__init__") if repo is not None else None
     src = sk.source
     try:
         tree = ast.parse(src)
@@ -225,7 +226,12 @@ def check_module(check: Check, label: str, sk: tmpl.Skeleton, ents: list) -> Non
             tgt = n.targets[0] if isinstance(n, ast.Assign) else n.target
             v = n.value
             if isinstance(tgt, ast.Name) and isinstance(v, ast.Call) and ast.unparse(v.func) == "ParserState":
-                if [ast.unparse(a) for a in v.args] == ["text", "start_pos"] and not v.keywords:
+                if state_init is not None:
+                    from .binding import role_of  # noqa: PLC0415
+
+                    if role_of(v, state_init, "input", construct) == "text" and role_of(v, state_init, "pos", construct) == "start_pos":
+                        state_var = tgt.id
+                elif [ast.unparse(a) for a in v.args] == ["text", "start_pos"] and not v.keywords:
                     state_var = tgt.id
             if isinstance(tgt, ast.Name) and isinstance(v, ast.List) and not v.elts:
                 list_var = tgt.id
